@@ -218,12 +218,16 @@ func (cons *VesaFbConsole) fill16(pX, pY, pW, pH uint32, bg uint8) {
 // fill24 implements a fill operation using a 24/32bpp framebuffer.
 func (cons *VesaFbConsole) fill24(pX, pY, pW, pH uint32, bg uint8) {
 	comp := cons.packColor24(bg)
+	compHi := cons.packColorHigh(bg)
 	fbRowOffset := cons.fbOffset(pX, pY)
 	for ; pH > 0; pH, fbRowOffset = pH-1, fbRowOffset+cons.pitch {
 		for fbOffset := fbRowOffset; fbOffset < fbRowOffset+pW*cons.bytesPerPixel; fbOffset += cons.bytesPerPixel {
 			cons.fb[fbOffset] = comp[0]
 			cons.fb[fbOffset+1] = comp[1]
 			cons.fb[fbOffset+2] = comp[2]
+			if cons.bytesPerPixel == 4 {
+				cons.fb[fbOffset+3] = compHi
+			}
 		}
 	}
 }
@@ -360,6 +364,8 @@ func (cons *VesaFbConsole) write24(glyphIndex, fg, bg uint8, pX, pY uint32) {
 		mask        uint8
 		fgComp      = cons.packColor24(fg)
 		bgComp      = cons.packColor24(bg)
+		fgHi        = cons.packColorHigh(fg)
+		bgHi        = cons.packColorHigh(bg)
 	)
 
 	for y = 0; y < cons.font.GlyphHeight; y, fbRowOffset, fontOffset = y+1, fbRowOffset+cons.pitch, fontOffset+1 {
@@ -380,10 +386,16 @@ func (cons *VesaFbConsole) write24(glyphIndex, fg, bg uint8, pX, pY uint32) {
 				cons.fb[fbOffset] = fgComp[0]
 				cons.fb[fbOffset+1] = fgComp[1]
 				cons.fb[fbOffset+2] = fgComp[2]
+				if cons.bytesPerPixel == 4 {
+					cons.fb[fbOffset+3] = fgHi
+				}
 			} else {
 				cons.fb[fbOffset] = bgComp[0]
 				cons.fb[fbOffset+1] = bgComp[1]
 				cons.fb[fbOffset+2] = bgComp[2]
+				if cons.bytesPerPixel == 4 {
+					cons.fb[fbOffset+3] = bgHi
+				}
 			}
 		}
 	}
@@ -411,6 +423,21 @@ func (cons *VesaFbConsole) packColor24(colorIndex uint8) [3]uint8 {
 		uint8(packed >> 8),
 		uint8(packed >> 16),
 	}
+}
+
+// packColorHigh returns the fourth byte of a palette color encoded for a 32 bpp
+// framebuffer; it is not zero when the color mask places a channel in bits
+// 24 to 31.
+func (cons *VesaFbConsole) packColorHigh(colorIndex uint8) uint8 {
+	var (
+		c             = cons.palette[colorIndex].(color.RGBA)
+		packed uint32 = 0 |
+			(uint32(c.R>>(8-cons.colorInfo.RedMaskSize)) << cons.colorInfo.RedPosition) |
+			(uint32(c.G>>(8-cons.colorInfo.GreenMaskSize)) << cons.colorInfo.GreenPosition) |
+			(uint32(c.B>>(8-cons.colorInfo.BlueMaskSize)) << cons.colorInfo.BluePosition)
+	)
+
+	return uint8(packed >> 24)
 }
 
 // packColor16 encodes a palette color into the pixel format required by a
@@ -508,8 +535,10 @@ func (cons *VesaFbConsole) replace24(src, dst color.RGBA) {
 	tmp := cons.palette[0]
 	cons.palette[0] = src
 	srcComp := cons.packColor24(0)
+	srcHi := cons.packColorHigh(0)
 	cons.palette[0] = dst
 	dstComp := cons.packColor24(0)
+	dstHi := cons.packColorHigh(0)
 	cons.palette[0] = tmp
 	// Visit the pixels row by row; the bytes between the end of a row and
 	// the next multiple of the pitch are padding and must be skipped.
@@ -519,10 +548,14 @@ func (cons *VesaFbConsole) replace24(src, dst color.RGBA) {
 		for fbOffset := fbRowOffset; fbOffset < fbRowOffset+rowSize; fbOffset += cons.bytesPerPixel {
 			if cons.fb[fbOffset] == srcComp[0] &&
 				cons.fb[fbOffset+1] == srcComp[1] &&
-				cons.fb[fbOffset+2] == srcComp[2] {
+				cons.fb[fbOffset+2] == srcComp[2] &&
+				(cons.bytesPerPixel != 4 || cons.fb[fbOffset+3] == srcHi) {
 				cons.fb[fbOffset] = dstComp[0]
 				cons.fb[fbOffset+1] = dstComp[1]
 				cons.fb[fbOffset+2] = dstComp[2]
+				if cons.bytesPerPixel == 4 {
+					cons.fb[fbOffset+3] = dstHi
+				}
 			}
 		}
 	}
